@@ -14,7 +14,8 @@
    Exact specification arithmetic: [period_start] / [period_end] = first slot of the fork-clamped
    period of [epoch] / first slot after it; [spec_first] = max(period_start - 1, now) with the
    subtraction saturating at slot 0; [spec_last] = period_end - 2 (the slot before the last). *)
-From Verif Require Import Lib.Base Model.C15_Sync Check.C15 Proofs.C15 Proofs.C15_Fire Proofs.C15_Check Proofs.C15_Pass.
+From Verif Require Import Lib.Base Lib.JobTab Model.C15_Sync Model.C15_Hist Check.C15 Proofs.C15 Proofs.C15_Fire Proofs.C15_Check
+  Proofs.C15_Pass Proofs.C15_Hist.
 
 (* ------------------------------------------------------------------------------------------- *)
 (* C15_window.  For every chain (slots per epoch, epochs per period, fork epoch), every epoch
@@ -368,15 +369,97 @@ Print Assumptions C15_check_predicate_sound_aggregate.
    case on which the implementation agrees with the model (Check.C15.agree) passes P_b.  So on a
    tree that still is the model the predicate cannot raise an alarm, and a tree that fails P_b on
    some input necessarily disagrees with the model there.  (A direct Aggregate call must list each
-   (aggregator, subcommittee) once: SelectionProofs is a map per validator.) *)
+   (aggregator, subcommittee) once: SelectionProofs is a map per validator.  Every call of a
+   history is in range and every refresh is for a period that does not begin at slot 0.) *)
 Theorem C15_agreement_implies_check :
   forall c,
     chain_ok (c_par c) -> in_range (c_par c) (si_epoch (c_in c)) (si_cur (c_in c)) ->
     (0 <= slot_ns (c_par c))%Z ->
     (forall a o, c_agg c = Some (a, o) -> NoDup (agg_items a)) ->
+    Forall (hop_ok (c_par c)) (c_hist c) ->
     agree c = true -> P_b c = true.
 Proof. exact model_passes_check. Qed.
 Print Assumptions C15_agreement_implies_check.
+
+(* ------------------------------------------------------------------------------------------- *)
+(* Histories on one controller and one scheduler (Model/C15_Hist.v): calls of
+   scheduleSyncCommitteeMessages, refreshes of a period's duties after a reorganisation
+   (refreshSyncCommitteeDutiesForEpochPeriod), slots firing, in any order.  [hstep p t o] is one
+   operation on the table [t] of pending prepare jobs (slot -> the call whose duty the job holds),
+   [hfinal p t ops] the table after a history.
+   [in_period_window p e s]: s lies between the slot before the first slot of the period of e and
+   the slot before its last (exact arithmetic).  [refresh_ok p e]: the period of e fits uint64 and
+   does not begin at slot 0 (a refresh is asked for the period after the current one).
+   [keeps p s o]: o is a call, a refresh of a period whose window does not hold s, or the firing
+   of another slot. *)
+
+(* C15_refresh_cancels_only_its_period.  On the wrapped arithmetic, the slots whose jobs a refresh
+   cancels are exactly those of the message window of the refreshed period; the job of any other
+   slot -- in particular of every remaining slot of the CURRENT period when the NEXT period is
+   refreshed -- is still there afterwards, with the duty it was scheduled with. *)
+Theorem C15_refresh_cancels_only_its_period :
+  forall p e,
+    chain_ok p -> refresh_ok p e ->
+    (forall s, in_rangeb (fst (refresh_range p e)) (snd (refresh_range p e)) s = true <-> in_period_window p e s)
+    /\ (forall t i s i0, ~ in_period_window p e s -> tab_get t s = Some i0 ->
+          tab_get (fst (hstep p t (HRefresh e i))) s = Some i0)
+    /\ (forall t i s, in_period_window p e s ->
+          tab_get (fst (hstep p t (HRefresh e i))) s = if existsb (N.eqb s) (sched_slots p i) then Some i else None).
+Proof.
+  intros p e Hok Hrf. split; [|split].
+  - intros s. exact (refresh_cancels_spec p e s Hok Hrf).
+  - intros t i s i0 Hout H. exact (refresh_keeps p t e i s i0 Hok Hrf Hout H).
+  - intros t i s Hin. exact (refresh_replaces p t e i s Hok Hrf Hin).
+Qed.
+Print Assumptions C15_refresh_cancels_only_its_period.
+
+(* C15_history_message_every_slot.  Once a call i has scheduled slot s, then after ANY further
+   history that leaves the slot alone (calls for this or other periods, refreshes of other periods,
+   other slots firing; any length, any order) the slot's jobs do exactly what they do right after
+   the call, [fire_scheduled p i f] -- to which C15_message_every_slot, the independence theorems
+   and the contribution theorems apply -- and the slot's job is consumed. *)
+Theorem C15_history_message_every_slot :
+  forall p t i ops f,
+    chain_ok p ->
+    tab_get t (f_slot f) = None -> In (f_slot f) (sched_slots p i) ->
+    Forall (keeps p (f_slot f)) ops ->
+    let t' := hfinal p (fst (hstep p t (HSched i))) ops in
+    snd (hstep p t' (HFire f)) = Some (fire_scheduled p i f)
+    /\ tab_get (fst (hstep p t' (HFire f))) (f_slot f) = None.
+Proof. exact history_message_every_slot. Qed.
+Print Assumptions C15_history_message_every_slot.
+
+(* ... and a slot of a refreshed period messages for the refreshed duties, whatever job it had. *)
+Theorem C15_history_message_after_refresh :
+  forall p t e i ops f,
+    chain_ok p -> refresh_ok p e -> in_period_window p e (f_slot f) ->
+    In (f_slot f) (sched_slots p i) ->
+    Forall (keeps p (f_slot f)) ops ->
+    let t' := hfinal p (fst (hstep p t (HRefresh e i))) ops in
+    snd (hstep p t' (HFire f)) = Some (fire_scheduled p i f).
+Proof. exact history_message_after_refresh. Qed.
+Print Assumptions C15_history_message_after_refresh.
+
+(* C15_check_predicate_sound_history.  What P_b accepts of a history: at every fired slot the
+   observed outcome passes the per-slot predicate (of C15_check_predicate_sound) for the call under
+   which the specification's table [spec_tab] (exact arithmetic) owes the slot, nothing is
+   submitted for a slot that is not owed, and the observed job list after the operation is one
+   prepare job, 1.5 slots early, per owed slot. *)
+Theorem C15_check_predicate_sound_history :
+  forall c ops1 f ops2,
+    P_b c = true -> c_hist c = ops1 ++ HFire f :: ops2 ->
+    let p := c_par c in
+    exists jobs out, nth_error (c_hobs c) (length ops1) = Some (jobs, Some out)
+      /\ (forall i, tab_get (spec_tab p ops1) (f_slot f) = Some i -> spec_fire_ok p i f out = true)
+      /\ (tab_get (spec_tab p ops1) (f_slot f) = None -> opt_list (o_submitted out) = [])
+      /\ (forall k s tm, In (k, s, tm) jobs <->
+            k = JPrepare /\ tm = (Z.of_N s * slot_ns p - slot_ns p * 6 / 4)%Z
+            /\ In s (map fst (spec_tab p (ops1 ++ [HFire f])))).
+Proof.
+  intros c ops1 f ops2 H Hh p. unfold P_b in H. apply andb_true_iff in H as [_ H]. rewrite Hh in H.
+  exact (hist_check_sound p ops1 f ops2 (c_hobs c) H).
+Qed.
+Print Assumptions C15_check_predicate_sound_history.
 
 (* ------------------------------------------------------------------------------------------- *)
 (* Non-vacuity. *)
@@ -434,4 +517,37 @@ Proof.
     + rewrite andb_true_r. split; auto.
   - unfold same_for_others. repeat split; reflexivity.
   - vm_compute. auto.
+Qed.
+
+(* a history: start-up in the first epoch of period 1 (slots 8..15; clock at slot 8), then the
+   refresh of period 2 after a reorganisation: slot 13 of the running period still has its job and
+   messages for the start-up call's members; had every sync committee job been cancelled instead
+   (cancellation by job-name prefix) the slot would have nothing to run *)
+Definition ex_h1 : sched_in :=
+  {| si_epoch := 2; si_cur := 8; si_notcur := true; si_indices := [5; 6; 7];
+     si_duties := Some [(5, [9]); (6, [17; 3]); (7, [30])]; si_accts := Some [5; 7] |}.
+Definition ex_h2 : sched_in :=
+  {| si_epoch := 4; si_cur := 8; si_notcur := false; si_indices := [5; 7];
+     si_duties := Some [(7, [2])]; si_accts := Some [5; 7] |}.
+Definition ex_hf : fire_in :=
+  {| f_slot := 13; f_root := Some 12; f_sel_err := false; f_sel_zero := [];
+     f_hash8 := []; f_root_err := false; f_root_zero := [];
+     f_submit_err := false; f_contrib_err := []; f_cp_err := false |}.
+
+Example C15_history_example :
+  refresh_ok ex_p 4 /\ ~ in_period_window ex_p 4 13 /\ in_period_window ex_p 4 15
+  /\ sched_slots ex_p ex_h1 = [9; 10; 11; 12; 13; 14]
+  /\ sched_slots ex_p ex_h2 = [15; 16; 17; 18; 19; 20; 21; 22]
+  /\ option_map o_submitted (snd (hstep ex_p (hfinal ex_p [] [HSched ex_h1; HRefresh 4 ex_h2]) (HFire ex_hf)))
+     = Some (Some [(13, 12, 5, SgRoot 5 3 12); (13, 12, 7, SgRoot 7 3 12)])
+  /\ snd (hstep ex_p (tab_del (hfinal ex_p [] [HSched ex_h1]) (fun _ => true)) (HFire ex_hf)) = Some no_fire.
+Proof.
+  split; [|split; [|split; [|split; [|split; [|split]]]]].
+  - unfold refresh_ok, in_range. repeat split; vm_compute; reflexivity.
+  - unfold in_period_window. vm_compute. intros [H _]. apply H. reflexivity.
+  - unfold in_period_window. vm_compute. split; discriminate.
+  - vm_compute. reflexivity.
+  - vm_compute. reflexivity.
+  - vm_compute. reflexivity.
+  - vm_compute. reflexivity.
 Qed.
